@@ -6,10 +6,10 @@ props = [json.loads(l) for l in open(os.path.join(HERE, "properties.jsonl"))]
 ids = [p["id"] for p in props]
 
 CLAIMED = {
- "C03": dict(cat="model_checking", technique="TLA+ model checking (TLC, SluPipe) + trace validation of recorded executions (SluPipeTrace)",
-             text="SluPipe models scheduler, pipeline wait protocol, supernode numbering, pruning and fixupL at the grain of the code's critical sections; TLC checks all interleavings exhaustively for every postordered forest up to the stated bound; real multithreaded factorizations are recorded through hooks and validated event by event against the same specification with every invariant evaluated at every step.",
+ "C03": dict(cat="model_checking", technique="TLA+ model checking (TLC, SluPipe, SluSched) + trace validation of recorded executions (SluPipeTrace; pthread, OpenMP and 64-bit-index builds; the repository's own test driver as trace generator) + replay of every TLC transition of SluSched into the real scheduler / mark_busy_descends",
+             text="SluPipe models scheduler, pipeline wait protocol, supernode numbering, pruning and fixupL at the grain of the code's critical sections; TLC checks all interleavings exhaustively for every postordered forest up to the stated bound; real multithreaded factorizations are recorded through hooks and validated event by event against the same specification with every invariant evaluated at every step; in the other direction TLC prints one test per transition of the scheduling layer's state graph (SluSched: loop test, scheduler section, mark busy, finish, for every interleaving on a forest) and the harness executes each on the real ParallelInit / pxgstrf_scheduler / pxgstrf_mark_busy_descends, comparing outputs and the complete scheduler state.",
              note="Trusted: TLC, sequential-consistency interleaving semantics, the hook logging discipline (DESIGN 4.2), the harness runtime. Exhaustive only within small constants (N<=5/6 columns, P<=3).", ref="3.2, 4.3, 5 C03"),
- "C04": dict(cat="model_checking", technique="TLA+ model checking with liveness (TLC, SluPipe FairSpec/Termination) + trace validation of watchdogged executions",
+ "C04": dict(cat="model_checking", technique="TLA+ model checking with liveness (TLC, SluPipe FairSpec/Termination; SluSched) + trace validation of watchdogged executions + replay of every TLC transition of SluSched into the real scheduler",
              text="TLC checks Termination under weak fairness and the counting invariants (TasksExact, OncePerPanel, QueueBound, NeverRoot, WaitOnBusy, Finished) for every interleaving on all small forests, also with zero pivots and with more workers than panels; real factorizations with 1..64 threads, singular inputs and injected delays run under a watchdog and their traces (one Pivot per column, an Exit per worker before JoinAll, thread count before/after) are validated against the same specification.",
              note="Liveness under weak fairness of each thread (an OS scheduler that eventually runs every thread); sequentially consistent interleavings; bounded forests (N<=4/5, P<=3).", ref="3.2, 5 C04"),
  "C09": dict(cat="model_checking", technique="TLA+ specification as oracle (SluLU!WellFormedLU evaluated by TLC on the projected output) + SluPipe model checking of numbering/storage/fixupL",
